@@ -595,8 +595,9 @@ class WebSocket:
         """
         close socket, immediately.
         """
-        if self.sock:
-            self.sock.close()
+        sock = self.sock
+        if sock:
+            sock.close()
             self.sock = None
             self.connected = False
 
